@@ -9,7 +9,7 @@ import checks.oracles as O
 from checks.c03 import COMMON_ASSUMPTIONS
 
 
-def grpc_mappings(chk, prog):
+def grpc_mappings(chk, prog, only_chain=False):
     """the gRPC layer: a pulled delivery is rendered field by field; a publish batch answers with the stored ids in request order"""
     import z3
     from gosym.core import And, Or, Not, Implies, UUIDStr, OpaqueBytes, SymMap
@@ -39,7 +39,8 @@ def grpc_mappings(chk, prog):
         pt = ex.getf(msg, 'PublishTime')
         ob.verify(ex, 'publish-time', And(ex.eq(ex.getf(pt, 'Seconds') * 10**9 + ex.getf(pt, 'Nanos'), pub), ex.getf(pt, 'Nanos') >= 0, ex.getf(pt, 'Nanos') < 10**9))
         ob.verify(ex, 'delivery-attempt', ex.eq(ex.getf(r, 'DeliveryAttempt'), na))
-    chk.run('grpc:pull-response-mapping', prog, h1, bounds={'delivery': 'fully symbolic'}, setup=world.setup)
+    if not only_chain:
+        chk.run('grpc:pull-response-mapping', prog, h1, bounds={'delivery': 'fully symbolic'}, setup=world.setup)
 
     hp = [x for x in list_handlers(prog) if x['method'] == 'Publish'][0]
 
@@ -72,7 +73,8 @@ def grpc_mappings(chk, prog):
                                                           Or(And(ex.eq(key, ''), rows[i].isnull('order_key')), And(Not(rows[i].isnull('order_key')), ex.eq(rows[i].v['order_key'], key)))))
             cnt = sum([z3.If(And(d.exists, ex.eq(d.v['message_id'], rows[i].v['id']), ex.eq(d.v['subscription_id'], db.t['Subscription'][0].v['id'])), 1, 0) for d in db.t['Delivery']])
             ob.verify(ex, 'one-delivery-for-the-subscription[%d]' % i, cnt == 1)
-    chk.run('grpc:publish-batch-fidelity', prog, h2, bounds={'batch': '1..2 messages'}, setup=world.setup, max_paths=50000)
+    if not only_chain:
+        chk.run('grpc:publish-batch-fidelity', prog, h2, bounds={'batch': '1..2 messages'}, setup=world.setup, max_paths=50000)
 
     hu = [x for x in list_handlers(prog) if x['method'] == 'UpdateSubscription'][0]
     FM = 'google.golang.org/protobuf/types/known/fieldmaskpb.FieldMask'
